@@ -607,12 +607,18 @@ def gen_writes(rng, cfg, nwrites, maxlen=4000, p_blocks=0.3, salt0=1, p_default_
                         gp = 1
                     cur_g += gp
             ops.append({"op": "wb", "g": g, "b": b, "len": cur_b, "salt": salt})
+            if rng.random() < 0.2:
+                # the index / data arrays handed to the writer are views with strides (a column of a table, every
+                # second element of a buffer), not fresh C-contiguous arrays
+                ops[-1]["layout"] = rng.choice(["strided", "column", "data_strided"])
             pos = cur_g
         else:
             ln = _pick_len(rng, cfg, cfg.start + rel, maxlen)
             use_default = gap == 0 and rng.random() < p_default_next
             ops.append({"op": "w", "rel": None if use_default else rel, "len": ln, "salt": salt,
                         "_rel": rel})
+            if rng.random() < 0.06:
+                ops[-1]["layout"] = "data_strided"
             pos = rel + ln
         salt += 1
     return ops
